@@ -135,7 +135,7 @@ func checkC01(c *Ctx, r *Report) {
 	checkC05(c, tmp5)
 	n5 := 0
 	for _, o := range tmp5.Obls {
-		if o.Rule == "O5-parents" || o.Rule == "K2" || o.Rule == "K2b" || o.Rule == "K3" || (o.Rule == "D1+D5" && (strings.Contains(o.Construct, `tag=""`))) {
+		if o.Rule == "G-base" || o.Rule == "G-prefix" || o.Rule == "O5-parents" || o.Rule == "K2" || o.Rule == "K2b" || o.Rule == "K3" || (o.Rule == "D1+D5" && (strings.Contains(o.Construct, `tag=""`))) {
 			o.Rule = "plan-" + o.Rule
 			r.Obls = append(r.Obls, o)
 			n5++
@@ -413,7 +413,6 @@ func guardedByZeroMode(st *ssa.Store) bool {
 }
 
 var _ = sort.Strings
-
 
 // isUmaskOperand: a file-mode typed value that is (a captured copy of) a
 // parameter — the umask handed to the planner.
